@@ -84,6 +84,8 @@ impl BarState {
 
         if let Reset::All = mode {
             self.state.pos.reset(now);
+            // The position starts again at zero, and so does the estimator's view of it.
+            self.state.est.prev_steps = 0;
             self.state.status = Status::InProgress;
 
             for tracker in self.style.format_map.values_mut() {
